@@ -67,7 +67,10 @@ def _collect_pow(expr: Pow) -> tuple[Expr, Dimension]:
     base_expr, base_dim = collect_expression_and_dimension(expr.base)
 
     expr_ = base_expr**exp_expr
-    dim = base_dim**exp_expr
+
+    # a dimensionless quantity in the exponent scales the dimension by its value
+    exp_value = exp_expr.scale_factor if isinstance(exp_expr, SymQuantity) else exp_expr
+    dim = base_dim**exp_value
 
     return expr_, dim
 
